@@ -9,7 +9,7 @@ inputs and of the prover-supplied hint `h = some (flag, y)`; the first component
   exactly the native contract, for EVERY hint.
 * `isqrt_rel_zero`: at den = 0 the system is satisfied exactly by (false, 0) and by (true, ±1): the second family is
   the known finding.
-* `decompress_sound_partial`: for s ≠ ±1 … i.e. whenever the discriminant argument is non-zero, a satisfied decode
+* `decompress_sound_except_minus_one`: for EVERY s other than q - 1 and every hint; `decompress_sound_partial`: for s ≠ ±1 … i.e. whenever the discriminant argument is non-zero, a satisfied decode
   gadget means the native specification decodes s, to the point the gadget outputs.  FULL STATEMENT (no side
   condition) is false: `decode_unsound_at_minus_one` exhibits the satisfying forged hint at s = q - 1.
 * `compress_sound`: the encode gadget is sound for EVERY hint and every representative of every group element (the
@@ -159,6 +159,43 @@ theorem decompress_sound_native {sr : SR} (h : SRContract sr) {s : ℕ} (hs : s 
   rcases decodeField_spec h s hs with ⟨_, hno⟩ | ⟨c, _, hok, _⟩
   · exact absurd ⟨⟨(X : Fq), (Y : Fq), hdec.onCurve⟩, hdec⟩ hno
   · exact ⟨c, hok⟩
+
+/-- **the decode gadget is sound for every s except q - 1**: the discriminant argument vanishes only at s = ±1, and
+s = 1 is negative, so the sign constraint rejects it whatever the hint -/
+theorem decompress_sound_except_minus_one {s : ℕ} (hs : s < q) (hne : s ≠ q - 1) (f : Bool) (y : ℕ) (hy : y < q)
+    {X Y : ℕ} (hsat : R1cs.decompress s (some (f, y)) = (true, X, Y)) :
+    DecodesTo params paritySign ((s : ℕ) : Fq) ((X : ℕ) : Fq) ((Y : ℕ) : Fq) := by
+  by_cases hden : fmul q (fsub q (fsq q (fsub q 1 (fsq q s))) (fmul q (fmul q 4 cD) (fsq q s))) (fsq q (fsub q 1 (fsq q s))) = 0
+  · exfalso
+    have hd : params.d = (cD : Fq) := rfl
+    have h0 := congrArg (Nat.cast : ℕ → Fq) hden
+    simp only [cast_fmul, cast_fsub, cast_fsq, Nat.cast_one, Nat.cast_ofNat, Nat.cast_zero] at h0
+    have hu2 := u2_ne_zero (P := params) ((s : ℕ) : Fq)
+    unfold u2 at hu2
+    rw [hd] at hu2
+    have h1 : (1 - (s : Fq) ^ 2) ^ 2 = 0 := by
+      rcases mul_eq_zero.mp h0 with h | h
+      · exact absurd (by linear_combination h) hu2
+      · linear_combination h
+    have h2 : ((s : Fq) - 1) * ((s : Fq) + 1) = 0 := by
+      have := pow_eq_zero_iff (n := 2) (by norm_num) |>.mp h1
+      linear_combination -this
+    rcases mul_eq_zero.mp h2 with h | h
+    · -- s = 1: negative, rejected by the sign constraint
+      have hs1 : s = 1 := by
+        apply eq_of_cast_eq hs one_lt_q
+        rw [Nat.cast_one]; linear_combination h
+      subst hs1
+      unfold R1cs.decompress at hsat
+      simp only [] at hsat
+      have hneg : isNeg 1 = true := by decide
+      rw [hneg] at hsat
+      simp at hsat
+    · -- s = -1 = q - 1: excluded
+      apply hne
+      apply eq_of_cast_eq hs (by have := q_pos; omega)
+      rw [cast_q_sub_one]; linear_combination h
+  · exact decompress_sound_partial hs f y hy hden hsat
 
 /-- **the known finding**: at s = q - 1 the forged hint (true, 1) satisfies every constraint of the decode gadget
 and the output is the non-point (0,0), although the specification (and both native decoders) reject q - 1 -/
